@@ -13,7 +13,8 @@ import (
 func init() {
 	register("C16", &propDef{
 		Title: "Pack output depends only on the tree and the options",
-		Rules: []func(*Checker){ruleC16Globals, ruleGlobalAddrNotShared("C16.globaladdr"), rulePackerWriters("C16.packer"), ruleC16ProcState, ruleC16Readlink, ruleC16Nondet, ruleC16CleanRoot, ruleRootLink("C16.rootlink"), ruleC16Spelled, ruleWalkingListResolved("C16.walkinglist")},
+		Rules: []func(*Checker){ruleC16Globals, ruleGlobalAddrNotShared("C16.globaladdr"), rulePackerWriters("C16.packer"), ruleC16ProcState, ruleC16Readlink, ruleC16Nondet, ruleC16CleanRoot, ruleRootLink("C16.rootlink"), ruleC16Spelled, ruleWalkingListResolved("C16.walkinglist"),
+			aliasRuleFiltered(ruleC04Accept2("C02.links"), "C02.links", "C16.spelledalike", 1, func(o Oblig) bool { return strings.Contains(o.Key, "spelled alike") })},
 		NotDecided: []string{
 			"equality of outputs across spellings of the source path (dot segments, trailing slash) — path algebra of filepath.Abs/Rel",
 			"the order in which filepath.Walk visits entries (library: lexical)",
